@@ -562,6 +562,7 @@ class C13(Prop):
                 p["failure-kind-unreach"] = 1
         down_now = set()
         ever_failed = set()
+        rerouted_from = set()
         hstate = {}
         calls = {c.step: c for c in res.calls}
         for i, st in enumerate(scn["steps"][:scn["heal"]]):
@@ -590,6 +591,10 @@ class C13(Prop):
                     owners = {refhash.owner(names, rk), refhash.owner(names, rk.decode("latin-1"))}
                     if nid_name[cmd[0]] not in owners:
                         p["server-evicted-and-traffic-rerouted"] = 1
+                        rerouted_from |= owners
+                    elif nid_name[cmd[0]] in rerouted_from:
+                        # its keys went elsewhere earlier and now reach it again: it is back in rotation
+                        p["server-revived-after-dead_timeout"] = 1
                 if down_now and not c.commands and c.id not in fl and c.outcome == "return":
                     p["retry-window-skipped-a-contact"] = 1
                 if c.commands and ever_failed and any(cmd[0] in ever_failed for cmd in c.commands) and \
